@@ -161,6 +161,80 @@ def check_nonfinite(spec, ev, how):
     return out
 
 
+def _doc_of(spec):
+    evs = A.events(spec, "core", cap=4, noop=False, weights=[1.0])
+    hist = [evs[0], evs[-1]]
+    return hist, json.loads(json.dumps(core.mk(spec, hist).toJson()))
+
+
+def check_doc_sequence(i, tier, upto=None):
+    """Loading a document is a function of that document alone. One execution: in a fresh process load document i,
+    then every representative document in turn (each twice); every reload must re-serialise to exactly its own
+    document and leave the caller's dict untouched. A violation is witnessed by (i, position): the replay re-executes the
+    same prefix in a fresh process."""
+    import histogrammar as hg
+
+    ts = sequence_trees(tier)
+    out, n = [], 0
+    try:
+        _, da = _doc_of(ts[i])
+        hg.Factory.fromJson(da)
+    except Exception as e:
+        return [core.v_exc(PROP, "sequence", "loading a document raised", e, {"i": i, "tier": tier, "upto": 0})], 0
+    for k, sb in enumerate(ts):
+        if upto is not None and k > upto:
+            break
+        args = {"i": i, "tier": tier, "upto": k, "first_document_of": ts[i], "then_document_of": sb}
+        try:
+            _, db = _doc_of(sb)
+            keep = json.dumps(db, sort_keys=True)
+            for attempt in ("after other documents", "a second time"):
+                r = hg.Factory.fromJson(db)
+                n += 1
+                d = C.diff(r.toJson(), json.loads(keep), tol_keys=())
+                if d:
+                    out.append(core.v_diff(PROP, "sequence", "reload of a document %s differs from the document" % attempt, d,
+                                           r.toJson(), args))
+                    return out, n
+                if json.dumps(db, sort_keys=True) != keep:
+                    out.append(FW.violation(PROP, "sequence", "fromJson(dict):" + sb["t"], "caller's-document-modified", args, {}))
+                    return out, n
+        except Exception as e:
+            out.append(core.v_exc(PROP, "sequence", "loading documents in sequence raised", e, args))
+            return out, n
+    return out, n
+
+
+def _seq(task):
+    i, tier = task
+    acc = FW.Acc()
+    vs, n = check_doc_sequence(i, tier)
+    acc.add(vs)
+    acc.n("document_sequences")
+    acc.n("roundtrips", n)
+    return acc.freeze_sets()
+
+
+def sequence_trees(tier):
+    """One representative per (root type, child types) + the large shapes + collections whose keys differ."""
+    cnt, sy = {"t": "Count"}, {"t": "Sum", "q": "y"}
+    extra = [{"t": "UntypedLabel", "ch": {"p": cnt, "q": sy}}, {"t": "Label", "ch": {"p": sy, "q": sy}},
+             {"t": "UntypedLabel", "ch": {"a": {"t": "UntypedLabel", "ch": {"x": cnt, "y": sy}},
+                                          "b": {"t": "UntypedLabel", "ch": {"z": cnt}}}},
+             {"t": "Index", "ch": [sy, sy, sy, sy]}, {"t": "Branch", "ch": [cnt, sy, cnt, sy]}]
+    seen, out = set(), []
+    for s in S.D1() + S.D2() + S.DX() + extra:
+        if has_transform(s):
+            continue
+        k = (s["t"], s.get("range"), s["v"]["t"] if "v" in s else None,
+             tuple(sorted(s["ch"])) if isinstance(s.get("ch"), dict) else (len(s["ch"]) if "ch" in s else None),
+             repr(s.get("p")))
+        if k not in seen:
+            seen.add(k)
+            out.append(s)
+    return out
+
+
 def make_menu(spec, tier):
     recs = A.records(spec, "mid", cap=6 if tier == "quick" else 8)
     events = [(r, 1.0) for r in recs] + [(recs[0], 0.5)]
@@ -239,6 +313,10 @@ def named_variants():
     return out
 
 
+def _dispatch(task):
+    return _tree(task[1]) if task[0] == "tree" else _seq(task[1])
+
+
 def trees(tier):
     t = S.D1() + S.D2() + S.D3flow() + named_variants()
     if tier != "quick":
@@ -257,7 +335,9 @@ def run(tier, seed):
     ts = trees(tier)
     mine = _scratch()
     try:
-        accs = FW.pmap(_tree, [(t, tier) for t in ts], seed)
+        accs = FW.pmap(_dispatch, [("tree", (t, tier)) for t in ts], seed)
+        # (before anything was loaded in this process) document sequences, each in a process of its own
+        accs += FW.pmap(_dispatch, [("seq", (i, tier)) for i in range(len(sequence_trees(tier)))], seed, fresh=True)
     finally:
         shutil.rmtree(mine, ignore_errors=True)
     acc = FW.Acc()
@@ -274,7 +354,9 @@ def run(tier, seed):
                 "through fromJson(dict/str), fromJsonString and (bounded number) toJsonFile/fromJsonFile, must re-serialise "
                 "identically, and the reload r is used in r+g, g+r (3 partner states), r*{0.5,2,0}, zero(), copy() against "
                 "the original, each result round-tripping again; trees include every flow-slot and sparse-content "
-                "combination (D3flow) and every quantity kind (def, string, named, cached)",
+                "combination (D3flow) and every quantity kind (def, string, named, cached); every ordered pair of documents of "
+                "the representative trees loaded one after the other in one process (and each twice): the reload equals its "
+                "own document, the caller's dict is untouched",
         "exhaustive": True,
         "bounds": {"trees": len(ts), "H": "2 (quick, depth 3) / 3", "P": 2},
     }
@@ -284,7 +366,11 @@ def run(tier, seed):
 
 
 def replay(driver, args):
+    if driver == "sequence":
+        return check_doc_sequence(args["i"], args["tier"], args["upto"])[0]
     spec = args["spec"]
+    if driver == "sequence":
+        return check_doc_sequence(args["i"], args["tier"], args["upto"])[0]
     if driver == "nonfinite":
         return check_nonfinite(spec, core.unshow_evs([args["ev"]])[0], args["how"])
     menu = menu_from_args(args["menu"])
